@@ -19,9 +19,11 @@ BOUNDS = (
     "on/off (6 variants) against an independent dict model (TTL min on merge, singleton types, "
     "CNAME/other-data exclusion, empty nodes removed, RFC 1982 serial). Exhaustive: every "
     "sequence of length 1 and 2 over a core alphabet of 98 operations (3 owner names x "
-    "{relative, absolute} spelling x {add A/A'/CNAME/TXT, replace A/CNAME, delete name, delete "
-    "type A/CNAME, delete rdata, delete_exact rdata/type/name} + apex SOA add, update_serial "
-    "+1 and +2^31-1) from 2 base zones, each run committed and with an exception injected "
+    "{relative, absolute} spelling x {add A, add A', add CNAME, add TXT, add NS, replace A, "
+    "replace CNAME, delete name, delete type A/CNAME/NS, delete rdata, delete_exact "
+    "rdata/type/name} + apex SOA add in both spellings, update_serial +1 (default name and "
+    "both spellings), +2^31-1, +2^31, absolute 0) "
+    "from 2 base zones, each run committed and with an exception injected "
     "after one (quick, every other pair) or every (thorough) operation index; length 1 on all 6 variants x both "
     "bases x 8 end modes; length 2 in quick on one variant/base per pair (rotated), in "
     "thorough on all 6 variants with the base alternating; thorough adds every length-3 "
@@ -340,7 +342,7 @@ def execute(kind, relativize, base_id, ops, mode, zone=None, stats=None):
                     {"site": "zone after " + ended_by, "class": "zone content changed by a transaction that did not commit", "mode": m},
                 )
             )
-    if not txn._ended and not fails:
+    if not getattr(txn, "_ended", True) and not fails:
         fails.append(
             (
                 "C10.ended_refuses",
